@@ -37,6 +37,11 @@ Definition so_raw_pop_before_dec : bool := true.
 Definition so_raw_pop_cmp : bytes := hex "3e3d".
 Definition so_raw_pop_rhs_is_depth : bool := true.
 
+(* ---- session.go negotiateSession: the configuration of the stanza encoder ---- *)
+Definition so_se_ns_field : bytes := hex "732e6f75742e496e666f2e584d4c4e53". (* s.out.Info.XMLNS *)
+Definition so_se_from_cond : bytes := hex "732e6f75742e496e666f2e584d4c4e53203d3d207374616e7a612e4e53536572766572". (* s.out.Info.XMLNS == stanza.NSServer *)
+Definition so_se_from_value : bytes := hex "732e4c6f63616c416464722829". (* s.LocalAddr() *)
+
 (* ---- internal/attr/idgen.go, internal/stream/stream.go ---- *)
 Definition so_id_len : nat := 16.
 Definition so_ns_xml : bytes := hex "687474703a2f2f7777772e77332e6f72672f584d4c2f313939382f6e616d657370616365".
